@@ -1397,3 +1397,38 @@ Proof.
   - repeat apply Forall_cons; try apply Forall_nil; unfold trunc_witness;
       (split; [|split; [|split; [|split]]]); vm_compute; try reflexivity; discriminate.
 Qed.
+
+(** ** a failed fill is not cached: when [get_cache_buf] misses and the
+    callback fails, the call returns the callback's status, the chosen (LRU)
+    slot is left with [size = 0], so it answers for no address of any space and
+    no later scan returns it -- the next request for that page misses again and
+    calls [get_page] again; the other slots and the MRU order are untouched.
+    (Whatever the failing callback wrote into [addr] is dead state.) *)
+Theorem readcache_failed_fill_not_cached : forall get_page c a_as a c' ev r,
+  find_slot c a_as a = None -> get_page a_as a = None ->
+  get_cache_buf get_page c a_as a = (c', ev, r) ->
+  let v := prev (rg c) (mru (rg c)) in
+  r = GFail /\ size (get_slot c' v) = 0 /\
+  (forall b_as b, hit_test (get_slot c' v) b_as b = false) /\
+  (forall b_as b, find_slot c' b_as b <> Some v) /\
+  (forall j, j <> v -> get_slot c' j = get_slot c j) /\ rg c' = rg c.
+Proof.
+  intros get_page c a_as a c' ev r Hf Hg. unfold get_cache_buf, get_cache_buf_re.
+  rewrite Hf. unfold miss_begin. cbn beta iota zeta.
+  unfold miss_end. rewrite Hg, get_set_same. cbn [as_ addr ptr size].
+  intros H. set (v := prev (rg c) (mru (rg c))) in *. injection H as Hc Hev Hr. subst c' ev r.
+  assert (Hsz : size (get_slot (set_slot (set_slot c v
+            {| as_ := a_as; addr := a; size := size (get_slot c v); ptr := None |}) v
+            {| as_ := a_as; addr := a; size := 0; ptr := None |}) v) = 0)
+    by (rewrite get_set_same; reflexivity).
+  assert (Hh : forall b_as b, hit_test (get_slot (set_slot (set_slot c v
+            {| as_ := a_as; addr := a; size := size (get_slot c v); ptr := None |}) v
+            {| as_ := a_as; addr := a; size := 0; ptr := None |}) v) b_as b = false).
+  { intros b_as b. unfold hit_test. rewrite Hsz.
+    destruct (wsub b _ <? 0) eqn:E; [apply N.ltb_lt in E; lia|reflexivity]. }
+  split; [reflexivity|]. split; [exact Hsz|]. split; [exact Hh|]. split; [|split].
+  - intros b_as b E. apply find_slot_sound in E. rewrite Hh in E. discriminate.
+  - intros j Hj. rewrite !get_set_slot.
+    destruct (ix_eqb v j) eqn:E; [apply ix_eqb_eq in E; congruence|reflexivity].
+  - reflexivity.
+Qed.
